@@ -6,7 +6,7 @@
    see DESIGN.md section C16/C03; the correspondence observes it, including that longer inputs are consumed to the end. *)
 From Coq Require Import List ZArith Bool Lia.
 Import ListNotations.
-From Verif Require Import Base.Num Base.Stream Base.StreamProofs Base.GenPrelude Base.HelperLaws Gen.All.
+From Verif Require Import Base.Num Base.Stream Base.StreamProofs Base.GenPrelude Base.HelperModels Base.HelperLaws Gen.All.
 
 Theorem C16_map_filter_are_the_list_functions : forall A B (f : A -> B) (p : A -> bool) (l : list A) I (e : expr I A) env,
   s_filter p l = filter p l /\ sem (EMap f e) env = map f (sem e env).
@@ -67,6 +67,33 @@ Theorem C16_since : forall I T (N : Num T) (neqb_spec : forall a b : T, neqb a b
      match l with [] => [] | x :: l' => nat_to_T (run_before T_dec x rp) :: go (x :: rp) l' end) [] (sem e env).
 Proof. exact @since_law. Qed.
 
+(* the helpers the translator regenerates from source denote exactly the hand-written slice models *)
+Theorem C16_generated_helpers_are_the_slice_models : forall I T (N : Num T) (e e' : expr I T) (k : Z) (x : T) env,
+  sem (helper_Change e k) env = s_change k (sem e env) /\
+  sem (helper_ChangeRatio e k) env = s_change_ratio k (sem e env) /\
+  sem (helper_ChangePercent e k) env = s_change_percent k (sem e env) /\
+  sem (helper_Abs e) env = map nabs (sem e env) /\
+  sem (helper_Add e e') env = s_op2 nadd (sem e env) (sem e' env) /\
+  sem (helper_Subtract e e') env = s_op2 nsub (sem e env) (sem e' env) /\
+  sem (helper_Multiply e e') env = s_op2 nmul (sem e env) (sem e' env) /\
+  sem (helper_Divide e e') env = s_op2 ndiv (sem e env) (sem e' env) /\
+  sem (helper_MultiplyBy e x) env = map (fun n => nmul n x) (sem e env) /\
+  sem (helper_DivideBy e x) env = map (fun n => ndiv n x) (sem e env) /\
+  sem (helper_IncrementBy e x) env = map (fun n => nadd n x) (sem e env) /\
+  sem (helper_DecrementBy e x) env = map (fun n => nsub n x) (sem e env) /\
+  sem (helper_Pow e x) env = map (fun n => npow n x) (sem e env) /\
+  sem (helper_Sqrt e) env = map nsqrt (sem e env) /\
+  sem (helper_Sign e) env = s_sign (sem e env) /\
+  sem (helper_KeepPositives e) env = s_keep_positives (sem e env) /\
+  sem (helper_KeepNegatives e) env = s_keep_negatives (sem e env) /\
+  sem (helper_RoundDigits e k) env = s_round_digits k (sem e env).
+Proof. exact @generated_helpers_are_the_slice_models. Qed.
+Theorem C16_generated_since_is_the_slice_model : forall I T (N : Num T) (e : expr I T) env,
+  sem (helper_Since e) env = s_since neqb (sem e env).
+Proof. exact @since_generated_is_slice_model. Qed.
+
+Print Assumptions C16_generated_helpers_are_the_slice_models.
+Print Assumptions C16_generated_since_is_the_slice_model.
 Print Assumptions C16_skip.
 Print Assumptions C16_last.
 Print Assumptions C16_shift.
